@@ -159,6 +159,39 @@ func runSites(dir string, seed uint64, tier string) error {
 	for _, t := range relCorpus {
 		addSite(w, "readReleaseData", t, nil, nil, "[]", "[]", release(t), "corpus")
 	}
+	// value shapes: every value of up to 3 bytes (4 in thorough) over {quote, letter, space, '=', single quote} for a key
+	// that is reported, alone and followed by a second line — a value that is exactly one quote, two quotes, a quote
+	// on one side only, quotes around nothing ... (what a hand-written unquoting would slice)
+	{
+		var vals []string
+		var rec func(p string, d int)
+		rec = func(p string, d int) {
+			vals = append(vals, p)
+			if d == 0 {
+				return
+			}
+			for _, c := range []string{"\"", "a", " ", "=", "'"} {
+				rec(p+c, d-1)
+			}
+		}
+		depth := 3
+		if tier == "thorough" {
+			depth = 4
+		}
+		rec("", depth)
+		for i, v := range vals {
+			t := []string{"ID=", "NAME=", "VERSION_ID="}[i%3] + v
+			switch i % 4 {
+			case 0:
+				t += "\n"
+			case 1:
+				t += "\nID=z\n"
+			case 2:
+				t = "# c\n" + t + "\r\n"
+			}
+			addSite(w, "readReleaseData", t, nil, nil, "[]", "[]", release(t), "value-shapes")
+		}
+	}
 	for i := 0; i < 150*scale; i++ {
 		s := []byte(gal.Pick(r, []string{sampleOSRelease, "ID=wolfi\nNAME=\"Wolfi\"\nVERSION_ID=20230201\n", "A=1\n#x\nB=\"2\"\n"}))
 		for k, m := 0, 1+r.Intn(4); k < m; k++ {
